@@ -51,8 +51,15 @@ class MidiInputDevice:
         log.debug(" - MIDI message received: %s" % message)
 
         if message.type == 'clock':
-            if self.last_clock_time is not None:
-                dt = time.time() - self.last_clock_time
+            #------------------------------------------------------------------------
+            # Two clock messages can carry the same timestamp (coarse system timer,
+            # a burst of queued messages) or the system clock can step back. Skip
+            # the tempo estimate for that interval: dividing by a zero interval
+            # raised before the tick was passed on, so the tick was lost.
+            #------------------------------------------------------------------------
+            now = time.time()
+            if self.last_clock_time is not None and now > self.last_clock_time:
+                dt = now - self.last_clock_time
                 tick_estimate = (120 / 48) * 1.0 / dt
                 if self.estimated_tempo is None:
                     self.estimated_tempo = tick_estimate
